@@ -22,7 +22,7 @@ def bounds(tier):
     return {'max_width': 3 if tier == 'quick' else 4}
 
 
-DECOS = ('plain', 'preds', 'alias_act', 'alias_first', 'partial_act', 'partial_first')
+DECOS = ('plain', 'preds', 'alias_act', 'alias_first', 'partial_act', 'partial_first', 'false_first', 'false_last')
 
 
 def decorate(sk, pk, widths, deco):
@@ -32,7 +32,7 @@ def decorate(sk, pk, widths, deco):
     chain = props.binding_chain(pk)
     refs = {}  # position -> alias referenced by every alternative
     alias = {}  # position -> (alias name, on which alternatives: 'all' | 'first')
-    if deco == 'plain' or deco == 'preds':
+    if deco in ('plain', 'preds', 'false_first', 'false_last'):
         pass
     elif deco in ('alias_act', 'partial_act'):
         if 'act' not in pos:
@@ -61,6 +61,11 @@ def decorate(sk, pk, widths, deco):
                 pred = props.alias_eq(refs[p])
             elif deco == 'preds':
                 pred = props.field_gt('x', j)
+            elif deco == 'false_first':
+                # an alternative whose predicate is the literal False (or True) is an alternative like any other
+                pred = ('pfalse',) if j == 0 else props.field_gt('x', j)
+            elif deco == 'false_last':
+                pred = ('pfalse',) if j == widths[p] - 1 else props.PTRUE
             else:
                 pred = props.PTRUE
             alts.append(ev(f'{props.TOPIC_PREFIX[p]}{j + 1}', al, pred))
@@ -338,7 +343,7 @@ def replay(w):
 def describe(tier):
     b = bounds(tier)
     return {
-        'rule': f"every scope kind x pattern kind x disjunction width 1..{b['max_width']} in each event position (complete) x 6 decorations (plain, predicates, alias on every activator alternative referenced later, alias on every alternative of the first pattern event referenced by the second, the two partial-alias forms) x time bound (none, 100 ms) x metadata (none, id+title) x route (parser, parser with topic names whose alphabetical order is not the source order, API right-nested, API left-nested); canonical_form applied, compared with the activator-major product computed independently from the lifted input, then re-applied to every output; the returned list is then emptied and canonical_form is called again on the same property. A state = one property object or one output; a transition = one canonical_form call.",
+        'rule': f"every scope kind x pattern kind x disjunction width 1..{b['max_width']} in each event position (complete) x 8 decorations (plain, predicates, the literal False as the predicate of the first / the last alternative of every event, alias on every activator alternative referenced later, alias on every alternative of the first pattern event referenced by the second, the two partial-alias forms) x time bound (none, 100 ms) x metadata (none, id+title) x route (parser, parser with topic names whose alphabetical order is not the source order, API right-nested, API left-nested); canonical_form applied, compared with the activator-major product computed independently from the lifted input, then re-applied to every output; the returned list is then emptied and canonical_form is called again on the same property. A state = one property object or one output; a transition = one canonical_form call.",
         'bounds': b,
         'exhaustive': True,
         'assumptions': ['lift() reads raw attrs fields; fresh construction through the public constructors defines "valid property"'],
